@@ -158,6 +158,9 @@ class Gen:
             if fam == "lifecycle":
                 if r.random() < 0.2: cfg.append("eventfd-emfile")
                 elif r.random() < 0.2: cfg.append("noeventfd")
+        if fam == "tasks" and r.random() < 0.3:
+            # the loop has been running for a long time: the task round counter is about to pass 2^16 / 2^31
+            cfg.append(f"epoch0={r.choice([65533, 65534, 65535, 65536, 2147483646])}")
         L.append("cfg " + " ".join(cfg))
         if fam == "storm":
             self.nf, self.nt, self.nk = r.choice([2, 3, 4, 6]), r.choice([1, 2, 4]), r.choice([1, 2, 3])
